@@ -368,6 +368,9 @@ func TestStrategy(t *testing.T) {
 	idx := 0
 	emit := func(kind string, c StrCase) {
 		if Mine(idx) {
+			if pre, err := json.Marshal(c); err == nil {
+				cw.Begin(idx, kind, pre)
+			}
 			coq, stats := runStrCase(c)
 			repl, _ := json.Marshal(c)
 			cw.Put(Case{Idx: idx, Kind: kind, Coq: coq, Repl: repl, Stats: stats})
